@@ -275,11 +275,11 @@ def e2e(ctx, rnd):
             for f in files(rnd):
                 write(alist, f)
                 t.signal(signal.SIGUSR1)
-                time.sleep(1.0)
+                time.sleep(1.0 * load_factor())
                 trace.append({"ev": "reload", "file": f})
                 for h in hashes:
                     announce(h)
-                time.sleep(2.6)          # at least one cleaning pass (interval 1 s)
+                time.sleep(2.6 * load_factor())          # at least one cleaning pass (interval 1 s)
                 trace.append({"ev": "cleaned", "asked": hashes, "present": present(hashes)})
             if not t.alive():
                 raise ToolError("tracker died: " + t.stderr()[-300:])
